@@ -141,6 +141,15 @@ def _tail_returns_to(body, make):
         if b1 is None or b2 is None:
             return None
         return head + [ast.copy_location(ast.If(test=last.test, body=b1, orelse=b2), last)]
+    if isinstance(last, ast.Try) and not last.orelse and not last.finalbody and last.handlers:
+        # `try: return A  except E: return B`: binding a plain name cannot raise, so the handlers see the same exceptions
+        tb = _tail_returns_to(last.body, make)
+        hs = [_tail_returns_to(h.body, make) for h in last.handlers]
+        if tb is None or any(h is None for h in hs):
+            return None
+        new = ast.Try(body=tb, handlers=[ast.ExceptHandler(type=h.type, name=h.name, body=hb) for h, hb in zip(last.handlers, hs)],
+                      orelse=[], finalbody=[])
+        return head + [ast.copy_location(new, last)]
     return None
 
 
